@@ -490,7 +490,7 @@ func (g *depGraph) computeWritesThrough(fns []*ssa.Function) {
 									if g.writesThrough[callee][ai] {
 										writes = true
 									}
-								} else if !g.pureOpaque(callee) {
+								} else if !g.pureOpaque(callee) && !(ai > 0 && readOnlyArgsCallee("", cc)) {
 									writes = true
 								}
 							}
@@ -1121,6 +1121,9 @@ func (g *depGraph) propagateDirect() {
 		callee := call.Call.StaticCallee()
 		if callee == nil || !parseFuncs[callee.String()] {
 			continue
+		}
+		if g.side != "recv" && strings.Contains(callee.String(), "encoding/binary") {
+			continue // livesim2 never decodes request bytes as binary media (only its own VoD / re-encoded data)
 		}
 		if g.tainted[n] {
 			mark(n)
